@@ -248,7 +248,7 @@ def c09_1(cx):
     cx.check(f.const("interned::DEFAULT_REVISIONS") == 3, "default REVISIONS is 3", body=b, detail={"DEFAULT_REVISIONS": f.const("interned::DEFAULT_REVISIONS")}, key="default-revs")
 
 
-@ob("C09.2", ["C09", "C08", "C07"], "a non-reusable value on the LRU list becomes a reuse candidate", kind="ONLYIF")
+@ob("C09.2", ["C09", "C08", "C07", "C02"], "a non-reusable value on the LRU list becomes a reuse candidate", kind="ONLYIF")
 def c09_2(cx):
     """Every lru.push_front is guarded by is_reusable(durability) (intern_id fast path and reuse path) or by insert_value's `reusable` flag = is_reusable(value.durability); the durability recorded on a re-interned value is max(old, stamp.durability) and a value that stops being reusable is unlinked."""
     b = cx.fn(IN + r"intern_id$")
